@@ -32,6 +32,34 @@ pub fn run(tier: Tier, replay: Option<Value>) -> ! {
         let s = p.iter().map(|x| g::script(x, true)).collect();
         (p.into_iter().map(Some).collect(), s)
     };
+    // the full case matrix: three arms, every terminator pair, every (matching / non-matching / default)
+    // pattern combination, bodies with distinct statuses, alone and inside a loop
+    let (mut progs, mut scripts) = (progs, scripts);
+    if replay.is_none() {
+        let terms = [";;", ";&", ";;&"];
+        let pats = ["a", "b", "*"];
+        for p1 in ["a", "b"] {
+            for t1 in terms {
+                for t2 in terms {
+                    for p2 in pats {
+                        for p3 in pats {
+                            for (bk, bodies) in [("rc", ["rc 1 4", "rc 2 5", "rc 3 6"]), ("mixed", ["ok 1", "ko 2", "ok 3"]), ("ctl", ["rc 1 4", "break", "rc 3 6"])] {
+                                for wrap in ["plain", "loop"] {
+                                    if bk == "ctl" && wrap == "plain" {
+                                        continue;
+                                    }
+                                    let case = format!("case a in\n{p1}) {} {t1}\n{p2}) {} {t2}\n{p3}) {} ;;\nesac", bodies[0], bodies[1], bodies[2]);
+                                    let body = if wrap == "loop" { format!("for v in 1 2; do\n{case}\npr\ndone") } else { case };
+                                    scripts.push(format!("{}{body}\necho \"end=$?\"\n", g::PRELUDE));
+                                    progs.push(None);
+                                }
+                            }
+                        }
+                    }
+                }
+            }
+        }
+    }
     let cases: Vec<Value> = scripts.iter().map(|s| json!({"s": s, "mode": "file"})).collect();
     let t0 = std::time::Instant::now();
     let brush = common::run_scripts(&cases, 20_000);
@@ -62,6 +90,9 @@ pub fn run(tier: Tier, replay: Option<Value>) -> ! {
         }
         if got != want {
             let mut tags = vec![];
+            if progs[i].is_none() && replay.is_none() {
+                tags.push("case-matrix".into());
+            }
             if let Some(p) = &progs[i] {
                 g::ctl_context_tags(p, 0, false, false, false, &mut tags);
                 let mut t2 = vec![];
@@ -81,7 +112,7 @@ pub fn run(tier: Tier, replay: Option<Value>) -> ! {
         }
     }
     rep.rule = format!(
-        "all programs of the control-flow grammar (lists ; && || !, if/elif/else, while, until, for, arithmetic for, case with ;; ;& ;;&, groups, subshells, function calls, break/continue/return/exit with n in {{absent,0,1,2,3}}) with <= {} nodes over the full leaf set plus all programs of exactly {} nodes over a 9-leaf subset; leaves print markers, a status-preserving probe follows every statement of a sequence; run as script files; non-trivial = more than two output lines",
+        "all programs of the control-flow grammar (lists ; && || !, if/elif/else, while, until, for, arithmetic for, case with ;; ;& ;;& (plus the full three-arm case matrix: terminator pairs x pattern combinations x bodies, alone and in a loop), groups, subshells, function calls, break/continue/return/exit with n in {{absent,0,1,2,3}}) with <= {} nodes over the full leaf set plus all programs of exactly {} nodes over a 9-leaf subset; leaves print markers, a status-preserving probe follows every statement of a sequence; run as script files; non-trivial = more than two output lines",
         tier.pick(3, 4),
         tier.pick(4, 5)
     );
